@@ -35,7 +35,7 @@ from pathlib import Path
 VERIF = Path(__file__).resolve().parents[2]
 LEAN = VERIF / "lean"
 DRIVER = LEAN / ".lake" / "build" / "bin" / "driver"
-EVIDENCE = VERIF / "evidence"
+EVIDENCE = Path(os.environ.get("VERIF_EVIDENCE_DIR") or (VERIF / "evidence"))  # override only for mutant-validation runs
 REPLAYS = VERIF / "replays"
 CORPUS = VERIF / "corpus"
 KNOWN = VERIF / "known_findings.json"
@@ -284,6 +284,7 @@ class Ctx:
         self.known_seen = []
         self.model_available = DRIVER.exists()
         self.dev = False
+        self.write_ev = True
 
     # -- tiers
     @property
@@ -476,7 +477,10 @@ class Ctx:
                 path.write_text(json.dumps(body, indent=1, default=str))
                 tail = "" if v.failing_input_found else " no-failing-input-found"
                 print(f"VIOLATION property={self.prop} replay={path}{tail}")
-        self.write_evidence(wall, len(real))
+        if self.write_ev:
+            self.write_evidence(wall, len(real))
+        else:
+            log(f"[{self.prop}] development run (--skip-prove): evidence file not written")
         return rc
 
     def write_evidence(self, wall, n_viol):
@@ -553,6 +557,7 @@ def main(argv=None):
         mod = load_module(a.prop)
         ctx = Ctx(mod, a.tier, seed)
         ctx.dev = a.dev
+        ctx.write_ev = not a.skip_prove
         if a.replay:
             body = json.loads(Path(a.replay).read_text())
             if not hasattr(mod, "replay"):
